@@ -324,6 +324,10 @@ func genJoin(r *kit.Rand, size int) []string {
 }
 
 func generate(out *kit.Out, r *kit.Rand, n int, tier string) {
+	if tier == "racechild" { // child process built with -race: real-task cases only
+		genTasks(out, r, n, tier)
+		return
+	}
 	for i := 0; i < n; i++ {
 		g := r.Fork()
 		var ops []string
